@@ -1,6 +1,7 @@
 package checks
 
 import (
+	gose "verif/exec"
 	"fmt"
 	"reflect"
 	"sort"
@@ -20,6 +21,48 @@ var c08Patterns = []string{
 	`(Binding "x" (Or (BasicLit "INT" _) (Ident _)))`,
 	`(Binding "anything" nil)`,
 	`(Or (Ident "a") (Or lit@(BasicLit _ "1") un@(UnaryExpr _ (Or (BasicLit _ _) (Ident _)))))`,
+}
+
+// patterns with symbols, for the candidate enumeration of code.Matches
+var c08SitePatterns = []string{
+	`(CallExpr (Symbol "example.com/dep.F") _)`,
+	`(CallExpr fun@(Symbol (Or "example.com/dep.F" "example.com/dep.G")) args)`,
+	`(CallExpr (Symbol "(*example.com/dep.T).M") _)`,
+	`(BinaryExpr (CallExpr (Symbol "example.com/dep.F") _) "==" _)`,
+	`(Or (CallExpr (Symbol "example.com/dep.F") _) (UnaryExpr "!" _))`,
+	`(CallExpr (Not (Symbol "example.com/dep.F")) [_])`,
+	`(CallExpr (Symbol "(example.com/dep.I).M") _)`,
+	`(CallExpr (Symbol "example.com/dep.V") _)`,
+	`(CallExpr (Symbol "example.com/dep.D") _)`,
+	`(CallExpr (Symbol "len") _)`,
+	`(DeferStmt (CallExpr (Symbol "example.com/dep.F") _))`,
+	`(AssignStmt _ ":=" (Symbol "example.com/dep.F"))`,
+}
+
+func c08SitesPrepare(c *Ctx) (map[string]string, []Entry, error) {
+	var sb strings.Builder
+	sb.WriteString("package code\n\nimport (\n\t\"go/ast\"\n\n\t\"honnef.co/go/tools/pattern\"\n)\n\nvar _ ast.Node\n\n")
+	var entries []Entry
+	for i, s := range c08SitePatterns {
+		var parser pattern.Parser
+		parser.AllowTypeInfo = true
+		p, err := parser.Parse(s)
+		if err != nil {
+			return nil, nil, fmt.Errorf("site pattern %d does not parse: %v\n%s", i, err, s)
+		}
+		fmt.Fprintf(&sb, "// %s\nfunc c08SitePat%d() pattern.Pattern {\n\treturn %s\n}\n\n", s, i, renderFullPattern(p, "c08B"))
+		for _, n := range []int{1, 2} {
+			fn := fmt.Sprintf("Harness_C08_sites_p%d_n%d", i, n)
+			fmt.Fprintf(&sb, "func %s() {\n\tc08Sites(%q, c08SitePat%d(), %d)\n\tvreach(\"end\")\n}\n\n", fn, fmt.Sprintf("site pattern %d", i), i, n)
+			tier := "both"
+			if n == 2 {
+				tier = "thorough"
+			}
+			entries = append(entries, Entry{Fn: fn, Tiers: tier, Reach: []string{"end"},
+				Bounds: fmt.Sprintf("pattern: %s ; package p with %d site(s) out of 21 call/reference forms x 4 import forms (plain, renamed, dot, none), two dependency packages; parsed and type-checked by the real go/parser and go/types inside the engine", s, n)})
+		}
+	}
+	return map[string]string{"zz_c08_sites_gen.go": sb.String()}, entries, nil
 }
 
 func c08Prepare(c *Ctx) (map[string]string, []Entry, error) {
@@ -65,6 +108,16 @@ func init() {
 				"patterns without type information (no Symbol/Object/Builtin nodes); 16 expression shapes",
 			},
 		}
+		// the one listed finding: a type symbol reached only through an alias
+		// declared in a third package, in a package that does not import the
+		// type's package (every program with that site under pattern 8)
+		spec.FindingKey = func(v gose.Violation) string {
+			if strings.Contains(v.Msg, "site pattern 8 [no import of dep;") && strings.Contains(v.Msg, "use(q.A(5))") &&
+				strings.Contains(v.Msg, "is not among the nodes code.Matches yields") {
+				return "C08:type_symbol_matched_through_an_alias_from_a_third_package_without_importing_the_type's_package"
+			}
+			return v.Harness + ":" + strings.ReplaceAll(v.Msg, " ", "_")
+		}
 		spec.Prepare = func(c *Ctx) error {
 			files, entries, err := c08Prepare(c)
 			if err != nil {
@@ -73,6 +126,13 @@ func init() {
 			spec.Groups = []Group{{PkgPath: "honnef.co/go/tools/pattern", PkgDir: "pattern", PkgName: "pattern",
 				Files: []string{"entry.go", "../C09/ref.go"}, Gen: files, Entries: entries,
 				Nop: []string{"honnef.co/go/tools/pattern.MustParse"}}}
+			sfiles, sentries, err := c08SitesPrepare(c)
+			if err != nil {
+				return err
+			}
+			spec.Groups = append(spec.Groups, Group{PkgPath: "honnef.co/go/tools/analysis/code", PkgDir: "analysis/code", PkgName: "code",
+				Files: []string{"sites.go"}, Gen: sfiles, Entries: sentries,
+				Nop: []string{"honnef.co/go/tools/pattern.MustParse"}})
 			return nil
 		}
 		return spec
